@@ -2,7 +2,7 @@ from .common import COMMON_TB
 
 CFG = dict(
         coq="Properties/C11.v",
-        areas=["delta", "bcj"],
+        areas=["delta", "bcj", "bcj2"],
         profiles=["release", "checked"],
         level="proof",
         theorems_expected=["C11_delta_inverse", "C11_delta_matches_reference", "C11_delta_write_partition", "C11_delta_read_partition",
